@@ -18,12 +18,13 @@ are not covered here.
 | an operation that only adds or renews leases never changes any share's data | FALSE for immutable `add_lease`: `lease_ops_preserve_data_counterexample` (open known finding); `lease_ops_preserve_data_partial` (every crash index but the one between record and count write; renewals always) |
 | an immutable share is either absent or complete | `immutable_absent_or_complete` (non-lease ops; rename is the commit point), `every_crash_prefix_absent_or_complete_partial` (all ops, all prefixes except the known-finding index) |
 | uploads still in progress are discarded at restart | `incoming_discarded_at_restart` (files); reservations/handles after restart: correspondence + monitor only (a fresh `StorageServer` has no writers) |
-| mutable containers (lease relocation when growing, truncation, deletion) | not covered here (mutable container models belong to C23–C25) |
+| lease-only operation never changes share data — mutable `add_lease` (extra-lease append) | `mutable_add_extra_lease_crash_effect`: data unchanged at every crash index (the leases of the operated-on share being unreadable at index 1 is an observation, not a clause); tied by the real-code probe in harness/props/c29.py |
+| mutable containers: lease relocation when growing, truncation, deletion | not covered here (mutable container models belong to C23–C25) |
 | torn single writes, fsync/durability | not covered (assumption: a single write/rename is atomic and durable) |
 | the primitive operation lists are those of the code | correspondence only: recorded trace of the real code compared with `fsops` on every case (seeded C29-b/C29-c change the trace) |
 -/
 namespace Tahoe.C29
-open Tahoe.Base.File Tahoe.Base.FsOp Tahoe.Storage.Imm Tahoe.Storage.Crash
+open Tahoe.Base.File Tahoe.Base.FsOp Tahoe.Storage Tahoe.Storage.Imm Tahoe.Storage.Crash
 
 /-! concrete instances for the `example`s -/
 def recA : Bytes := List.replicate 72 1
@@ -217,6 +218,58 @@ example : (∀ f, exFs (.fin (0, 0)) = some f → WFFin f) ∧
   refine ⟨fun f hf => ?_, fun h => absurd h.2.2 (by decide)⟩
   have : f = share10 := by simp [exFs] at hf; exact hf.symm
   subst this; exact ⟨by decide, by decide⟩
+
+/-- a minimal mutable container: empty data, four (blank) header slots, empty extra-lease area at 468 -/
+def mutEx : File := zeros 84 ++ packU64 0 ++ packU64 468 ++ zeros 368 ++ packU32 0
+
+/-- **mutable_add_extra_lease_crash_effect**: for EVERY mutable container whose lease slots are all
+    taken (`MutWF`: the extra-lease area ends the file) and every crash index of the two writes of
+    `MutableShareFile.add_lease` (the incremented extra-lease count, then the 92-byte record), the
+    share DATA is unchanged — clause "a lease-only operation never changes any share's data" for
+    mutable containers.
+    Observation about the code as it is (not a C29 clause: the share is the one being written): the
+    leases of that share are enumerable at every crash index except index 1 (between the count and the
+    record write), where a restarted server gets `struct.error` on the short read of the
+    counted-but-missing record although every existing lease record is still on disk; an unapplied
+    candidate reorder is in fixes/unapplied/C29-mutable-extra-lease-order.diff. -/
+theorem mutable_add_extra_lease_crash_effect (fs : IFs) (p : Path) (f : File) (rec : Bytes)
+    (hf : fs p = some f) (h : MutWF f) (hr : rec.length = 92) :
+    (∀ n, (Tahoe.Base.FsOp.run fs ((mutAddExtraLeaseOps p f rec).take n) p).map mutData = some (mutData f)) ∧
+    mutLeasesReadable f = true ∧
+    (Tahoe.Base.FsOp.run fs ((mutAddExtraLeaseOps p f rec).take 1) p).map mutLeasesReadable = some false ∧
+    (∀ n, n ≠ 1 →
+      (Tahoe.Base.FsOp.run fs ((mutAddExtraLeaseOps p f rec).take n) p).map mutLeasesReadable = some true) := by
+  obtain ⟨hl, he, hn, hd, hdat⟩ := mut_after_count_write f h
+  obtain ⟨hr2, hdat2⟩ := mut_after_record_write f h rec hr
+  have hfull := h.full
+  have h0 : mutLeasesReadable f = true := by simp [mutLeasesReadable]; omega
+  have t1 : (mutAddExtraLeaseOps p f rec).take 1 =
+      [.pwrite p (Mutable.extOff f) (packU32 (Mutable.numExtra f + 1))] := rfl
+  have r1 := run_pwrite_same fs p f hf (Mutable.extOff f) (packU32 (Mutable.numExtra f + 1))
+  have r2 := run_pwrite2_same fs p f hf (Mutable.extOff f) (packU32 (Mutable.numExtra f + 1))
+    (Mutable.extOff f + 4 + Mutable.numExtra f * 92) rec
+  refine ⟨?_, h0, ?_, ?_⟩
+  · intro n
+    rcases n with _ | _ | n
+    · simp [Tahoe.Base.FsOp.run, hf]
+    · rw [t1, r1]; simp only [Option.map_some]; exact congrArg some hdat
+    · have : (mutAddExtraLeaseOps p f rec).take (n + 1 + 1) = mutAddExtraLeaseOps p f rec := by
+        simp [mutAddExtraLeaseOps]
+      rw [this]; simp only [mutAddExtraLeaseOps]; rw [r2]; simp only [Option.map_some]; exact congrArg some hdat2
+  · rw [t1, r1]
+    simp only [Option.map_some, mutLeasesReadable, Option.some.injEq, decide_eq_false_iff_not]
+    rw [he, hn, hl]; omega
+  · intro n hn1
+    rcases n with _ | _ | n
+    · simp [Tahoe.Base.FsOp.run, hf, h0]
+    · exact absurd rfl hn1
+    · have : (mutAddExtraLeaseOps p f rec).take (n + 1 + 1) = mutAddExtraLeaseOps p f rec := by
+        simp [mutAddExtraLeaseOps]
+      rw [this]; simp only [mutAddExtraLeaseOps]; rw [r2]; simp only [Option.map_some]; exact congrArg some hr2
+
+set_option maxRecDepth 20000 in
+example : MutWF mutEx ∧ Mutable.extOff mutEx = 468 ∧ Mutable.numExtra mutEx = 0 ∧ mutEx.length = 472 :=
+  ⟨⟨by decide, by decide, by decide⟩, by decide, by decide, by decide⟩
 
 /-- **incoming_discarded_at_restart**: after a crash at any point of any operation, the restarted
     server has no incoming file at all (`_clean_incomplete`), and restart itself changes no final
